@@ -37,12 +37,23 @@ def build_schemas(raw_schemas: dict[str, Mapping[str, Any]], raw_components: Map
 
     context = ParsingContext(raw_spec_schemas=raw_schemas, raw_spec_components=raw_components)
 
-    # Build initial IR for all schemas found in components
-    for n, nd in raw_schemas.items():
-        # Check if schema is already registered (either by original name or sanitized name)
-        sanitized_n = NameSanitizer.sanitize_class_name(n)
-        if n not in context.parsed_schemas and sanitized_n not in context.parsed_schemas:
-            _parse_schema(n, nd, context, allow_self_reference=True)
+    def _unparsed(key: str) -> bool:
+        # A depth-limit placeholder stored while parsing ANOTHER schema does not count as parsed
+        existing = context.parsed_schemas.get(key)
+        return existing is None or existing._max_depth_exceeded_marker
+
+    # Build initial IR for all schemas found in components. Schemas that were cut off at the depth limit
+    # deep inside another schema are parsed again from depth 0 (each pass completes at least those).
+    for _ in range(len(raw_schemas)):
+        pending = [n for n in raw_schemas if _unparsed(n) and _unparsed(NameSanitizer.sanitize_class_name(n))]
+        if not pending:
+            break
+        for n in pending:
+            # Check if schema is already registered (either by original name or sanitized name)
+            sanitized_n = NameSanitizer.sanitize_class_name(n)
+            if _unparsed(n) and _unparsed(sanitized_n):
+                context.unified_cycle_context.schema_states.pop(n, None)
+                _parse_schema(n, raw_schemas[n], context, allow_self_reference=True)
 
     # Post-condition check: each raw schema must be registered under either its original or sanitized name
     for n in raw_schemas:
